@@ -625,3 +625,64 @@ Definition redefault (p : policy) (v : Z) : policy :=
   | PReadOnly _ => PReadOnly v          (* a ReadOnly with a given default: never assignable *)
   | _ => p
   end.
+
+(* ================================================================== *)
+(* Sixth wave (C13-w3).  copy.copy(obj) / pickle round trip of a HasTraits object:
+   __reduce_ex__ = (__newobj__, (cls,), obj.__getstate__()); the new object is cls.__new__(cls) and
+   __setstate__(state) assigns every entry with setattr (trait_set, has_traits.py l.1337-1360, 1449-1458):
+   each name is governed by the COPY's own rules — instance traits are not copied.
+   __getstate__ = trait_get(transient = None) (l.1299): the names of traits() (l.3017-3028: the declared
+   class traits __base_traits__ in order, then the instance traits, then the names in obj.__dict__ that
+   have a (cached) class trait) whose trait is not transient (Python, Any, typed, ReadOnly; not Constant,
+   Event, Disallow), each with the value getattr gives (defaults are materialised on the original; a name
+   whose read raises AttributeError is skipped).  The restore stops at the first assignment that raises;
+   the half-restored object is dropped.  [ct0]: the declared class traits of the class. *)
+Definition persists (p : policy) : bool :=
+  match p with PPython | PAny _ | PTyped _ _ | PReadOnly _ => true | _ => false end.
+
+Definition clone_names (ct0 : ctab) (s : state) : list name :=
+  map fst ct0
+  ++ filter (fun n => negb (amem n ct0)) (map fst (s_itd s))
+  ++ filter (fun n => negb (amem n ct0) && negb (amem n (s_itd s)) && amem n (s_ctd s)) (map fst (s_od s)).
+
+Fixpoint read_state (pt : ptab) (s : state) (ns : list name) : state * list (name * Z) :=
+  match ns with
+  | [] => (s, [])
+  | n :: r =>
+      match (match assoc n (s_itd s) with Some p => Some p | None => assoc n (s_ctd s) end) with
+      | Some p =>
+          if persists p then
+            let '(s', ob) := step pt s (OGet n) in
+            match o_out ob with
+            | Val v => let '(s'', l) := read_state pt s' r in (s'', (n, v) :: l)
+            | _ => read_state pt s' r
+            end
+          else read_state pt s r
+      | None => read_state pt s r
+      end
+  end.
+
+Fixpoint restore (pt : ptab) (s : state) (st : list (name * Z)) : state * option exn :=
+  match st with
+  | [] => (s, None)
+  | (n, v) :: r =>
+      let '(s', ob) := step pt s (OSet n v) in
+      match o_out ob with
+      | Raise e => (s', Some e)
+      | _ => restore pt s' r
+      end
+  end.
+
+(* two instances (ctd, a, b): a is copied; on success the copy becomes instance b.
+   Result: new state, outcome, the state dictionary, what the copy holds for its names *)
+Definition clone (ct0 : ctab) (pt : ptab) (s2 : state2)
+  : state2 * outcome * list (name * Z) * list (name * option Z) :=
+  let '(ctd, a, b) := s2 in
+  let sa := mkState ctd (fst a) (snd a) in
+  let '(sa', st) := read_state pt sa (clone_names ct0 sa) in
+  let '(sb', e) := restore pt (mkState (s_ctd sa') [] []) st in
+  match e with
+  | Some x => ((s_ctd sb', (s_itd sa', s_od sa'), b), Raise x, st, [])
+  | None => ((s_ctd sb', (s_itd sa', s_od sa'), (s_itd sb', s_od sb')), Done, st,
+             map (fun nv => (fst nv, assoc (fst nv) (s_od sb'))) st)
+  end.
